@@ -128,6 +128,9 @@ class Compiler:
         )  # bytecode_pos -> (line, column)
         self._current_loc: Optional[Tuple[int, int]] = None  # Current source location
         self._hoisted: set = set()  # ids of function declarations compiled on entry
+        # Program-level slot holding the completion value (the result of eval)
+        self._completion_slot: Optional[int] = None
+        self._completion_muted = 0  # > 0 while compiling a finally block
 
     def _hoist_function_declarations(self, body: List[Node]) -> None:
         """Function declarations are initialised when their scope is entered.
@@ -175,18 +178,15 @@ class Compiler:
         declared = self._program_var_names(body)
         self._hoist_function_declarations(body)
 
-        # Compile all statements except the last one
-        for stmt in body[:-1] if body else []:
+        # The completion value of a program is the value of the last
+        # statement that produced one (ECMAScript: UpdateEmpty).  Expression
+        # statements of the program store their value in a hidden local;
+        # if/loops/switch/try reset it to undefined when they are entered.
+        self._completion_slot = self._add_local("<completion>")
+        for stmt in body:
             self._compile_statement(stmt)
-
-        # For the last statement, compile with completion value semantics
-        if body:
-            self._compile_statement_for_value(body[-1])
-            self._emit(OpCode.RETURN)
-        else:
-            # Empty program returns undefined
-            self._emit(OpCode.LOAD_UNDEFINED)
-            self._emit(OpCode.RETURN)
+        self._emit(OpCode.LOAD_LOCAL, self._completion_slot)
+        self._emit(OpCode.RETURN)
 
         return CompiledFunction(
             name="<program>",
@@ -286,7 +286,7 @@ class Compiler:
                     # The finally block runs outside its own try statement
                     inner = self.loop_stack[i:]
                     del self.loop_stack[i:]
-                    self._compile_statement(scope.finalizer)
+                    self._compile_finalizer(scope.finalizer)
                     self.loop_stack.extend(inner)
             elif target is not None:
                 for _ in range(scope.stack_slots):
@@ -518,10 +518,52 @@ class Compiler:
 
     # ---- Statements ----
 
+    def _tracks_completion(self) -> bool:
+        """True while compiling program-level code whose value eval returns."""
+        return (
+            self._completion_slot is not None
+            and not self._in_function
+            and not self._completion_muted
+        )
+
+    def _reset_completion(self) -> None:
+        """if/loops/switch/try complete with undefined unless a statement
+        inside them produces a value."""
+        if self._tracks_completion():
+            self._emit(OpCode.LOAD_UNDEFINED)
+            self._emit(OpCode.STORE_LOCAL, self._completion_slot)
+            self._emit(OpCode.POP)
+
+    def _compile_finalizer(self, node: Node) -> None:
+        """A finally block that completes normally leaves the completion
+        value of its try statement alone."""
+        self._completion_muted += 1
+        try:
+            self._compile_statement(node)
+        finally:
+            self._completion_muted -= 1
+
     def _compile_statement(self, node: Node) -> None:
         """Compile a statement."""
+        if isinstance(
+            node,
+            (
+                IfStatement,
+                WhileStatement,
+                DoWhileStatement,
+                ForStatement,
+                ForInStatement,
+                ForOfStatement,
+                SwitchStatement,
+                TryStatement,
+            ),
+        ):
+            self._reset_completion()
+
         if isinstance(node, ExpressionStatement):
             self._compile_expression(node.expression)
+            if self._tracks_completion():
+                self._emit(OpCode.STORE_LOCAL, self._completion_slot)
             self._emit(OpCode.POP)
 
         elif isinstance(node, BlockStatement):
@@ -886,7 +928,7 @@ class Compiler:
                     catch_done = self._emit_jump(OpCode.JUMP)
                     self._patch_jump(catch_guard)
                     self.loop_stack.pop()
-                    self._compile_statement(node.finalizer)
+                    self._compile_finalizer(node.finalizer)
                     self._emit(OpCode.THROW)  # Rethrow the catch block's exception
                     self.loop_stack.append(try_ctx)
                     self._patch_jump(catch_done)
@@ -897,7 +939,7 @@ class Compiler:
                 # No catch, only finally - exception is on stack
                 # Run finally then rethrow
                 self.loop_stack.pop()
-                self._compile_statement(node.finalizer)
+                self._compile_finalizer(node.finalizer)
                 self.loop_stack.append(try_ctx)
                 self._emit(OpCode.THROW)  # Rethrow the exception
 
@@ -907,7 +949,7 @@ class Compiler:
             # Normal finally block (after try completes normally or after catch)
             self._patch_jump(jump_to_finally)
             if node.finalizer:
-                self._compile_statement(node.finalizer)
+                self._compile_finalizer(node.finalizer)
 
         elif isinstance(node, SwitchStatement):
             self._compile_expression(node.discriminant)
@@ -1028,68 +1070,6 @@ class Compiler:
             raise NotImplementedError(
                 f"Cannot compile statement: {type(node).__name__}"
             )
-
-    def _compile_statement_for_value(self, node: Node) -> None:
-        """Compile a statement leaving its completion value on the stack.
-
-        This is used for eval semantics where the last statement's value is returned.
-        """
-        if isinstance(node, ExpressionStatement):
-            # Expression statement: value is the expression's value
-            self._compile_expression(node.expression)
-
-        elif isinstance(node, BlockStatement):
-            # Block statement: value is the last statement's value
-            # Handle nested blocks iteratively to avoid deep recursion
-            current = node
-            intermediate_stmts = []
-
-            # Drill down through nested blocks, collecting intermediate statements
-            while isinstance(current, BlockStatement):
-                if not current.body:
-                    # Empty block returns undefined
-                    for stmt in intermediate_stmts:
-                        self._compile_statement(stmt)
-                    self._emit(OpCode.LOAD_UNDEFINED)
-                    return
-                # Collect all but last statement
-                intermediate_stmts.extend(current.body[:-1])
-                # Continue with last statement
-                current = current.body[-1]
-
-            # Compile all intermediate statements
-            for stmt in intermediate_stmts:
-                self._compile_statement(stmt)
-
-            # Compile the innermost last statement for value
-            self._compile_statement_for_value(current)
-
-        elif isinstance(node, IfStatement):
-            # If statement: value is the chosen branch's value
-            self._compile_expression(node.test)
-            jump_false = self._emit_jump(OpCode.JUMP_IF_FALSE)
-
-            self._compile_statement_for_value(node.consequent)
-
-            if node.alternate:
-                jump_end = self._emit_jump(OpCode.JUMP)
-                self._patch_jump(jump_false)
-                self._compile_statement_for_value(node.alternate)
-                self._patch_jump(jump_end)
-            else:
-                jump_end = self._emit_jump(OpCode.JUMP)
-                self._patch_jump(jump_false)
-                self._emit(OpCode.LOAD_UNDEFINED)  # No else branch returns undefined
-                self._patch_jump(jump_end)
-
-        elif isinstance(node, EmptyStatement):
-            # Empty statement: value is undefined
-            self._emit(OpCode.LOAD_UNDEFINED)
-
-        else:
-            # Other statements: compile normally, then push undefined
-            self._compile_statement(node)
-            self._emit(OpCode.LOAD_UNDEFINED)
 
     def _find_required_free_vars(self, body: Node, local_vars: set) -> set:
         """Find all free variables required by this function including pass-through.
